@@ -327,4 +327,22 @@ Definition coupled_step (v : variant) (threshold : N) (lim : option N) (s : bsha
 Definition coupled_run (v : variant) (threshold : N) (lim : option N) (rs0 : list rd) (ws0 : list wr) (rs1 : list rd) (ws1 : list wr)
   (sched : list nat) : bshared * list bthread :=
   fold_left (coupled_step v threshold lim) sched (bridge_init rs0 ws0 rs1 ws1).
+
+(* -------------------------------------------------------------------------------------------------
+   Target attach (bridge_connection.go SetTargetConnection closes `ready`; bridge_forward.go Start blocks on `ready` before it
+   spawns the two copy goroutines).  Thread index 2 is the attach event; until it has happened a step of a copy direction
+   does nothing.  Schedules therefore range over every position of the attach among the steps of the two directions. *)
+Definition attach_step (v : variant) (threshold : N) (lim : option N)
+  (s : bool * (bshared * list bthread)) (i : nat) : bool * (bshared * list bthread) :=
+  if fst s then (true, sys_step _ _ (bstep v threshold lim) (snd s) i)
+  else if Nat.eqb i 2 then (true, snd s) else s.
+Definition attach_run (v : variant) (threshold : N) (lim : option N) (rs0 : list rd) (ws0 : list wr) (rs1 : list rd) (ws1 : list wr)
+  (sched : list nat) : bool * (bshared * list bthread) :=
+  fold_left (attach_step v threshold lim) sched (false, bridge_init rs0 ws0 rs1 ws1).
+(* the part of a schedule that comes after the first attach event *)
+Fixpoint after_attach (sched : list nat) : list nat :=
+  match sched with
+  | [] => []
+  | i :: r => if Nat.eqb i 2 then r else after_attach r
+  end.
 Close Scope N_scope.
